@@ -31,7 +31,7 @@ ASSUMPTIONS = ['peer eventually closes or resets the connection (final-state mon
                'bounded progress: at most 400 loop operations between synchronisation points']
 REQUIRED = ['oracle.no-crash', 'oracle.final-state', 'oracle.user-told', 'oracle.invalid-pdu-aborted',
             'monitor.wellformed-output', 'oracle.silence',
-            'oracle.pipelined-then-invalid']
+            'oracle.pipelined-then-invalid', 'oracle.non-ascii-title-answered']
 
 SITUATIONS = {
     'awaiting-request': ('acceptor', []),
@@ -62,6 +62,8 @@ def plan(tier, seed):
             specs.append({'name': name, 'lo': p * n // parts, 'hi': (p + 1) * n // parts})
     for k in range(3 if tier == 'quick' else 18):
         specs.append({'name': 'pipeline', 'index': k})
+    for k in range(4 if tier == 'quick' else 16):
+        specs.append({'name': 'pipeline', 'index': k, 'title': True})
     return specs
 
 
@@ -69,7 +71,10 @@ def run_shard(spec, tier, seed):
     res = Result()
     if spec['name'] == 'pipeline':
         from . import c12pipe
-        c12pipe.run_case(res, {'index': spec['index'], 'seed': seed})
+        if spec.get('title'):
+            c12pipe.run_title_case(res, {'index': spec['index'], 'seed': seed})
+        else:
+            c12pipe.run_case(res, {'index': spec['index'], 'seed': seed})
         return res
     for i in range(spec['lo'], spec['hi']):
         run_case(res, {'situation': spec['name'], 'index': i, 'seed': seed})
@@ -80,7 +85,10 @@ def replay(case):
     res = Result()
     if case.get('pipeline'):
         from . import c12pipe
-        c12pipe.run_case(res, {'index': case['index'], 'seed': case['seed']})
+        if case.get('title'):
+            c12pipe.run_title_case(res, {'index': case['index'], 'seed': case['seed']})
+        else:
+            c12pipe.run_case(res, {'index': case['index'], 'seed': case['seed']})
         return res
     run_case(res, case, verbose=True)
     return res
